@@ -78,9 +78,10 @@ func fanConfigViaLoader(ctx *Ctx, cfg configuration.FanConfig) (configuration.Fa
 	switch {
 	case cfg.HwMon != nil:
 		fmt.Fprintf(&sb, "    hwmon:\n      platform: %s\n", cfg.HwMon.Platform)
-		if cfg.HwMon.RpmChannel > 0 {
+		if cfg.HwMon.RpmChannel > 0 && (loaderEntries%2 == 0 || cfg.HwMon.Index <= 0) {
 			fmt.Fprintf(&sb, "      rpmChannel: %d\n", cfg.HwMon.RpmChannel)
 		} else {
+			// the fan is selected by its position as `fan2go detect` prints it; the channels are filled in by the hwmon detection
 			fmt.Fprintf(&sb, "      index: %d\n", cfg.HwMon.Index)
 		}
 		if cfg.HwMon.PwmChannel > 0 {
@@ -111,6 +112,14 @@ func fanConfigViaLoader(ctx *Ctx, cfg configuration.FanConfig) (configuration.Fa
 			return
 		}
 		configuration.LoadConfig()
+		// (every entry point validates what it has loaded before it builds its objects)
+		// (a cmd fan without getPwm is not a configuration fan2go accepts; the harness keeps such write-only fans for the
+		// controller paths they exercise and does not validate them)
+		if !(cfg.Cmd != nil && cfg.Cmd.GetPwm == nil) {
+			if lerr = configuration.Validate(cfgPath); lerr != nil {
+				return
+			}
+		}
 		if len(configuration.CurrentConfig.Fans) != 1 {
 			lerr = fmt.Errorf("%d fan entries loaded", len(configuration.CurrentConfig.Fans))
 			return
@@ -129,6 +138,12 @@ func fanConfigViaLoader(ctx *Ctx, cfg configuration.FanConfig) (configuration.Fa
 	}
 	if cfg.HwMon != nil && out.HwMon != nil {
 		out.HwMon.SysfsPath, out.HwMon.RpmInputPath, out.HwMon.PwmPath, out.HwMon.PwmEnablePath = cfg.HwMon.SysfsPath, cfg.HwMon.RpmInputPath, cfg.HwMon.PwmPath, cfg.HwMon.PwmEnablePath
+		if out.HwMon.RpmChannel == 0 {
+			out.HwMon.RpmChannel, out.HwMon.Index = cfg.HwMon.RpmChannel, cfg.HwMon.Index
+		}
+		if out.HwMon.PwmChannel == 0 {
+			out.HwMon.PwmChannel = cfg.HwMon.PwmChannel
+		}
 	}
 	return out, nil
 }
